@@ -357,6 +357,10 @@ class Instance:
             if hasattr(self, "_value") and hasattr(other, "_value"):
                 if self._value == other._value:
                     return True
+            elif not hasattr(self, "_value") and not hasattr(other, "_value"):
+                # Unaddressed instance bytes (broadcast, device, ...)
+                # carry no value: two of the same class are equal
+                return True
 
         return False
 
